@@ -1236,8 +1236,18 @@ static void union_initializer(Token **rest, Token *tok, Initializer *init) {
 //             | struct-initializer | union-initializer
 //             | assign
 static void initializer2(Token **rest, Token *tok, Initializer *init) {
-  if (init->ty->kind == TY_ARRAY && tok->kind == TK_STR) {
+  if (init->ty->kind == TY_ARRAY && is_integer(init->ty->base) &&
+      tok->kind == TK_STR) {
     string_initializer(rest, tok, init);
+    return;
+  }
+
+  // A string literal initializing a character array may be
+  // enclosed in braces.
+  if (init->ty->kind == TY_ARRAY && is_integer(init->ty->base) &&
+      equal(tok, "{") && tok->next->kind == TK_STR && is_end(tok->next->next)) {
+    string_initializer(&tok, tok->next, init);
+    consume_end(rest, tok);
     return;
   }
 
